@@ -182,6 +182,20 @@ def run(rep, facts, tier):
                 if not good:
                     ok = False
                     why = 'State.%s is truncated to a bound that is not the build-entry mark ctx.%s' % (res, mark)
+                else:
+                    # the Context the mark is read from must be the one opened at build entry: taken from
+                    # State.nested at the depth recorded in the mark argument (falling back to ctx when nothing deeper is open)
+                    entry_ctx = False
+                    for w in sites:
+                        for a in w['term']['args'][1:]:
+                            e = f.expr_of_operand(a)
+                            txt = expr_str(e, -30)
+                            if 'nested' in txt and any(isinstance(x, tuple) and x[0] == 'arg' and x[1] >= 2 for x in expr_walk(e)):
+                                entry_ctx = True
+                    if not entry_ctx:
+                        ok = False
+                        why = ('State.%s is truncated to ctx.%s of the CURRENT context, not of the context opened at build entry: a failure '
+                               'inside an open meta block keeps everything the rejected source built before the `#(`' % (res, mark))
             if ok and not mark:
                 good = False
                 for w in sites:
@@ -222,6 +236,21 @@ def run(rep, facts, tier):
         rep.add('C10.R1', 'C10.R1:%s:releases:nested' % rf, bool(nw),
                 'contexts opened since build entry are popped' if nw else '%s leaves State.nested alone' % short(rf), rf,
                 nw[0]['at'] if nw else f.j['span'])
+        # a rejected build is not a failed run: the flag that makes the next compile halt must be reset
+        lw = [w for w in ws if w['field'][0] == 'last_error']
+        clears = False
+        for w in lw:
+            if w['how'].startswith('assign') and w.get('stmt') is not None:
+                rvs = expr_str(f.expr_of_rvalue(w['stmt']['rv'], 0, frozenset()), -10)
+                lhs_fields = [x.get('f') for x in w['stmt']['lhs']['p'] if isinstance(x, dict)]
+                if ('runtime' in lhs_fields or w['field'][-1] == 'runtime') and rvs.strip() in ('0', 'false') or 'None' in rvs:
+                    clears = True
+            if w['how'].startswith('call:shrink:take') or w['how'].startswith('call:overwrite'):
+                clears = True
+        rep.add('C10.R2', 'C10.R2:%s:clears-failed-run-flag' % rf, clears,
+                'the full-release path resets last_error.runtime: a build rejected by a build-time execution failure is not mistaken for a failed run'
+                if clears else '%s leaves last_error.runtime set: after a build rejected by a failing meta block / immediate word the next compile '
+                'halts pending, healthy code' % short(rf), rf, lw[0]['at'] if lw else f.j['span'])
         # the halt path really halts
         rep.add('C10.R2', 'C10.R2:%s:halt-on-failed-run' % rf, bool(halts),
                 'the built-but-failed-at-run path sets ctx.ip to the end of the code (program halted)' if halts else
